@@ -42,6 +42,9 @@ const (
 	clientUserAgent = "gortsplib"
 )
 
+// maximum number of consecutive redirects followed by Describe().
+const clientMaxRedirects = 10
+
 func generateLocalSSRCs(existing []uint32, formats []format.Format) (map[uint8]uint32, error) {
 	ret := make(map[uint8]uint32)
 
@@ -1442,6 +1445,13 @@ func (c *Client) Options(u *base.URL) (*base.Response, error) {
 }
 
 func (c *Client) doDescribe(u *base.URL) (*description.Session, *base.Response, error) {
+	return c.doDescribeWithRedirects(u, 0)
+}
+
+func (c *Client) doDescribeWithRedirects(
+	u *base.URL,
+	redirectCount int,
+) (*description.Session, *base.Response, error) {
 	err := c.checkState(map[clientState]struct{}{
 		clientStateInitial:   {},
 		clientStatePrePlay:   {},
@@ -1478,6 +1488,10 @@ func (c *Client) doDescribe(u *base.URL) (*description.Session, *base.Response, 
 		if res.StatusCode >= base.StatusMovedPermanently &&
 			res.StatusCode <= base.StatusUseProxy &&
 			len(res.Header["Location"]) == 1 {
+			if redirectCount >= clientMaxRedirects {
+				return nil, nil, fmt.Errorf("too many redirects")
+			}
+
 			c.reset()
 
 			var ru *base.URL
@@ -1497,7 +1511,7 @@ func (c *Client) doDescribe(u *base.URL) (*description.Session, *base.Response, 
 			c.Scheme = ru.Scheme
 			c.Host = ru.Host
 
-			return c.doDescribe(ru)
+			return c.doDescribeWithRedirects(ru, redirectCount+1)
 		}
 
 		return nil, res, liberrors.ErrClientBadStatusCode{Code: res.StatusCode, Message: res.StatusMessage}
